@@ -51,8 +51,11 @@ fn actions(full: bool) -> Vec<(String, Kind)> {
         "DATA 7",
         "READ A:PRINT A;",
         "PRINT )",
+        "DELETE 30",
+        "DELETE 10",
+        "NEW",
     ];
-    let bodies_small = ["PRINT \"x\";", "GOTO 30", "GOSUB 30", "RETURN", "STOP", "DEF FNA(X)=X+2", "PRINT )"];
+    let bodies_small = ["PRINT \"x\";", "GOTO 30", "GOSUB 30", "RETURN", "STOP", "DEF FNA(X)=X+2", "PRINT )", "DELETE 30", "NEW"];
     for n in [10, 20, 30] {
         if full {
             for b in bodies_full {
@@ -156,7 +159,9 @@ impl SpaceModel for Model {
                         ));
                     }
                 }
-                if matches!(kind, Kind::Direct | Kind::Run | Kind::Resume) && before != after {
+                // a program may edit itself with DELETE / NEW (both end the run)
+                let self_editing = before.iter().any(|l| l.contains("DELETE") || l.contains("NEW"));
+                if matches!(kind, Kind::Direct | Kind::Run | Kind::Resume) && !self_editing && before != after {
                     viols.push((
                         "direct-statement/changes-listing".to_string(),
                         format!("{:?} changed the listing from {:?} to {:?}", text, before, after),
@@ -169,7 +174,8 @@ impl SpaceModel for Model {
                         edited_idle = true;
                     }
                 }
-                _ => edited_idle = false,
+                // DELETE / NEW executed by the program: an edit after which nothing has executed
+                _ => edited_idle = before != after,
             }
         }
         let d = hash64(&(s.rt.verif_digest(), edited_idle));
@@ -206,7 +212,7 @@ impl Check for C04 {
         let d = tier.pick(4, 5);
         Meta {
             bound: format!(
-                "breadth-first search over all histories of depth <= {} over 47 actions (21 line edits on lines 10/20/30, bare numbers present and absent, DELETE ranges hitting and missing, RENUM, RENUM 100, NEW, LOAD of a file and of a missing file, 5 non-editing direct statements, RUN, RUN 20/100/110, CONT, RETURN, NEXT, FN call), from the empty interpreter and from a 4-line program that was run and stopped inside a subroutine; the 83-action alphabet (15 bodies per line) to depth {}; states deduplicated by the full state digest, and a run without deduplication to depth {} as a cross-check",
+                "breadth-first search over all histories of depth <= {} over 53 actions (27 line edits on lines 10/20/30, bare numbers present and absent, DELETE ranges hitting and missing, RENUM, RENUM 100, NEW, LOAD of a file and of a missing file, 5 non-editing direct statements, RUN, RUN 20/100/110, CONT, RETURN, NEXT, FN call), from the empty interpreter and from a 4-line program that was run and stopped inside a subroutine; the 92-action alphabet (18 bodies per line, including DELETE and NEW executed by the program itself) to depth {}; states deduplicated by the full state digest, and a run without deduplication to depth {} as a cross-check",
                 d,
                 d - 1,
                 d - 1
